@@ -103,8 +103,11 @@ def recording(store):
         out = real(f, x0, bracket, settings)
         x = out[0]
         fl = lambda v: float(onp.asarray(v))
-        store.setdefault(_SITE[0], []).append(dict(guard=True, x=fl(x), lb=fl(bracket[0]), ub=fl(bracket[1]), rl=fl(f(bracket[0])),
-                                                   rh=fl(f(bracket[1])), rx=fl(f(x)), rtol=fl(settings.r_tol)))
+        try:
+            store.setdefault(_SITE[0], []).append(dict(guard=True, x=fl(x), lb=fl(bracket[0]), ub=fl(bracket[1]), rl=fl(f(bracket[0])),
+                                                       rh=fl(f(bracket[1])), rx=fl(f(x)), rtol=fl(settings.r_tol)))
+        except jax.errors.TracerArrayConversionError:
+            pass        # call under differentiation (stress): the same site was recorded by the plain evaluation before
         return out
     SRF.find_root = rec_find_root
     try:
@@ -173,7 +176,8 @@ class J2Case:
             worst, n_calls = self._validate(validate, sampler, rtol)
             h.fact('translator_validation[%s]' % label, True,
                    'max rel err %.2e on %d ground runs of the stubbed symbolic path with the stub value := real root; the real root '
-                   'satisfied the contract post-condition at all %d executed call sites' % (worst, validate, n_calls), nontrivial=False)
+                   'satisfied the contract post-condition at all %d executed call sites%s' % (worst, validate - getattr(self, 'nan_samples', 0), n_calls,
+                   '; %d sample(s) skipped because the REAL code returned non-finite values' % self.nan_samples if getattr(self, 'nan_samples', 0) else ''), nontrivial=False)
         self.ctx = jx.Ctx()
         self.ctx.c09_assume_post = assume_post
         self.ctx.c09_calls = {}
@@ -198,6 +202,9 @@ class J2Case:
         for k in range(n):
             args = [onp.asarray(v, dtype=float) for v in sampler(rng)] if (sampler is not None and k) else self.example
             real_out, calls = self.real(args)
+            if not all(onp.all(onp.isfinite(onp.asarray(l, dtype=float))) for l in jax.tree_util.tree_leaves(real_out)):
+                self.nan_samples = getattr(self, 'nan_samples', 0) + 1     # nothing to compare with: the real run is non-finite (the obligations decide why)
+                continue
             ctx = jx.Ctx(ground=True)
             ctx.c09_assume_post = False
             ctx.c09_calls = {}
@@ -246,7 +253,10 @@ class J2Case:
     def conc_inputs(self, vals):
         return {k: onp.asarray(vals[k], dtype=float).reshape(e.shape) for k, e in zip(self.names, self.example)}
 
-    def prove(self, name, spec, cap=60, order=('core', 'nlsat'), denoms=True, extra_assumes=(), axioms=False, drop_side=False):
+    def prove(self, name, spec, cap=60, order=('core', 'nlsat'), denoms=True, extra_assumes=(), axioms=False, drop_side=False, rewrite=None, witness=True):
+        """rewrite: applied to EVERY assumption and to the goal (used to rename a compound term to a fresh variable
+        consistently in the whole query: every model of the original query extends to one of the renamed query, so unsat
+        carries over)"""
         assumes, atoms = spec(self.inp, self.out, self.calls)
         single = isinstance(atoms, sym.Atom)
         if single:
@@ -254,6 +264,9 @@ class J2Case:
         base = list(assumes) + ([] if drop_side else self.side(denoms)) + list(extra_assumes)
         if axioms:
             base += jx.uf_axioms(self.ctx)
+        if rewrite is not None:
+            base = [rewrite(tob(f)) for f in base if not (isinstance(f, bool) and f)]
+            atoms = [_sub_atom(a, rewrite) for a in atoms]
         recs = []
         for i, atom in enumerate(atoms):
             def concrete(vals, i=i):
@@ -267,8 +280,36 @@ class J2Case:
                             calls={lab: cc(lab) for lab in cc.labels()})
                 return ok, catoms[i], info
             qn = name if single and not atom.name else '%s.%s' % (name, atom.name or str(i))
-            recs.append(self.h.prove(qn, base, atom, inputs=self.inp, concrete=concrete, cap=cap, order=order))
+            rec = self.h.prove(qn, base, atom, inputs=self.inp, concrete=concrete, cap=cap, order=order)
+            if rec is not None and rec['status'] == 'inconclusive' and witness and rewrite is None:
+                # unknown: look for a counterexample on a thin slice of the box (any model there is a genuine counterexample; it is replayed)
+                hint = self.witness_slice()
+                w = self.h.prove(qn + '[witness_search]', base + hint, atom, inputs=self.inp, concrete=concrete, cap=min(cap, 40), order=('nlsat', 'core'),
+                                 check_vacuity=False, note='counterexample search on a slice of the box after an unknown')
+                if w is not None and w['status'] != 'violated' and w in self.h.records:
+                    self.h.records.remove(w)        # nothing found on the slice: the unknown above stands
+                elif w is not None and w['status'] == 'violated' and rec in self.h.records:
+                    self.h.records.remove(rec)
+                    rec = w
+            recs.append(rec)
         return recs
+
+    def witness_slice(self):
+        """concrete moduli and a two-parameter strain family (one shear, one normal component), zero plastic strain"""
+        f = self.free
+        cs = []
+        for k, v in (('E', 200.0), ('nu', 0.25), ('Y0', 1.0), ('H', 20.0), ('dt', 1.0)):
+            if k in f:
+                cs.append(s0(f[k]) == rat(v))
+        if 'dg' in f:
+            for (a, b) in [(0, 2), (1, 0), (1, 1), (1, 2), (2, 0), (2, 1), (2, 2)]:
+                if isz(self.inp['dg'][a, b]):
+                    cs.append(f['dg'][a, b] == 0)
+        if 'st' in f:
+            for k in range(1, 10):
+                if isz(self.inp['st'][k]) and z3.is_const(self.inp['st'][k]):
+                    cs.append(f['st'][k] == 0)
+        return cs
 
 
 # ------------------------------------------------------------------------------------------ boxes
@@ -336,6 +377,8 @@ def f_state(dg, st, E, nu, Y0, H, dt):
 
 
 C_FLOW = float(onp.sqrt(3. / 2.))   # the normalisation of the flow direction (N:N = 3/2) as a binary64 number
+import fractions
+CC_EXACT = fractions.Fraction(C_FLOW) ** 2   # its exact square (the code's N:N)
 
 
 def f_chain(dg, st, E, nu, Y0, H, dt, energy=False, stress=False):
@@ -352,7 +395,7 @@ def f_chain(dg, st, E, nu, Y0, H, dt, energy=False, stress=False):
     N0, N1 = J2.compute_flow_direction(E0), J2.compute_flow_direction(E1)
     aux = dict(mu=props[J2.PROPS_MU], DD0=jnp.tensordot(D0, D0), DN0=jnp.tensordot(D0, N0), DD1=TM.norm_of_deviator_squared(E1),
                DN1=jnp.tensordot(D1, N1), F0=hm.compute_flow_stress(st[0], st[0], dt), F1=hm.compute_flow_stress(st1[0], st1[0], dt),
-               N0=N0, D0=D0, D1=D1)
+               N0=N0, D0=D0, D1=D1, E1=E1)
     if energy:
         site('a')
         aux['W0'] = m.compute_energy_density(dg, st, dt)
@@ -461,14 +504,25 @@ class Chain:
         self.h, self.c, self.sq, self.hmin_rel = h, case, sq, hmin_rel
         self.facts = []          # [(name, z3 formula)] proved links
         self.failed = []
+        self.violated = False    # a link or goal was refuted on the real code: the rest of the chain is pointless
 
     def q(self, hmin_rel=None):
         return Q(self.c.inp, self.c.out, self.c.calls, self.sq, self.hmin_rel if hmin_rel is None else hmin_rel)
 
-    def link(self, name, mk_atoms, cap=60, order=('core', 'nlsat'), use_facts=True, generalise=None):
+    def link(self, name, mk_atoms, cap=60, order=('core', 'nlsat'), use_facts=True, generalise=None, rename=None):
         """mk_atoms(q) -> list of atoms; proved on the real terms (with replay); discharged ones become facts.
         generalise: {atom name: fn(q) -> compound terms} that are replaced by fresh variables in that GOAL atom only before
-        proving (a valid generalised goal implies its instance; the recorded fact is the instance)"""
+        proving (a valid generalised goal implies its instance; the recorded fact is the instance).
+        rename(q) -> compound terms renamed to fresh variables in the WHOLE query (assumptions and goal)"""
+        rw = None
+        if rename is not None:
+            rn = [(t, z3.Real('ren_%s_%d' % (name.replace('.', '_'), k))) for k, t in enumerate(rename(self.q())) if isz(t) and not z3.is_const(t)]
+            rn.sort(key=lambda p: -_size(p[0]))
+
+            def rw(f):
+                for t, v in rn:
+                    f = z3.substitute(f, (t, v))
+                return f
         gen = {}
         for an, fn in (generalise or {}).items():
             gen[an] = [(t, z3.Real('gen_%s_%d' % (an, k))) for k, t in enumerate(fn(self.q())) if isz(t) and not z3.is_const(t)]
@@ -479,11 +533,28 @@ class Chain:
             if gen and isz(q.g):
                 atoms = [_sub_atom(a, lambda f, a=a: z3.substitute(f, *gen[a.name])) if gen.get(a.name) else a for a in atoms]
             return q.assumes, atoms
-        recs = self.c.prove(name, spec, cap=cap, order=order, extra_assumes=[f for _, f in self.facts] if use_facts else ())
+        facts = [f for _, f in self.facts] if use_facts else ()
+        recs = self.c.prove(name, spec, cap=cap, order=order, extra_assumes=facts, rewrite=rw)
+        if (rw is not None or gen) and any(r is not None and r['status'] != 'discharged' for r in recs):
+            # a renamed/generalised query has no replayable model: decide the failing atoms again over the real inputs
+            bad = [k for k, r in enumerate(recs) if r is not None and r['status'] != 'discharged']
+
+            def spec_bad(i, o, calls):
+                q = Q(i, o, calls, self.sq, self.hmin_rel)
+                atoms = mk_atoms(q)
+                return q.assumes, [atoms[k] for k in bad]
+            again = self.c.prove(name + '[over_real_inputs]', spec_bad, cap=cap, order=order, extra_assumes=facts)
+            for k, r2 in zip(bad, again):
+                if r2 is not None and r2['status'] in ('discharged', 'violated'):
+                    if recs[k] in self.h.records:
+                        self.h.records.remove(recs[k])
+                    recs[k] = r2
         atoms = mk_atoms(self.q())
         for rec, atom in zip(recs, atoms):
             if rec is None:
                 continue
+            if rec['status'] == 'violated':
+                self.violated = True
             if rec['status'] == 'discharged':
                 self.facts.append((rec['query'], _fact(atom)))
             else:
@@ -503,16 +574,21 @@ class Chain:
         q = self.q(hmin_rel)
         goal = mk_goal(q)
         pairs = []
+        scalars = {'E', 'nu', 'Y0', 'H', 'dt', 'st_0'} | {str(v) for v in self.sq.vars.values()}
         for nm, t in (table or _table_all)(q):
-            if isz(t) and not (z3.is_const(t) and t.decl().kind() == z3.Z3_OP_UNINTERPRETED):
-                pairs.append((t, (z3.Bool if z3.is_bool(t) else z3.Real)('abs_' + nm)))
+            if not isz(t):
+                continue
+            if _consts([t]) <= scalars or (z3.is_const(t) and t.decl().kind() == z3.Z3_OP_UNINTERPRETED):
+                scalars |= _consts([t])          # already a scalar expression of the parameters / a fresh value: kept as it is
+                continue
+            pairs.append((t, (z3.Bool if z3.is_bool(t) else z3.Real)('abs_' + nm)))
         pairs.sort(key=lambda p: -_size(p[0]))      # outermost terms first: a renamed term must not be broken up by renaming its parts
 
         def sub(f):
             for t, v in pairs:
                 f = z3.substitute(f, (t, v))
             return f
-        ok_names = {str(v) for _, v in pairs} | {'E', 'nu', 'Y0', 'H', 'dt', 'st_0'} | {str(v) for v in self.sq.vars.values()}
+        ok_names = {str(v) for _, v in pairs} | scalars
         facts = [sub(f) for _, f in self.facts] + [sub(tob(x)) for x in extra]
         facts = [f for f in facts if _consts([f]) <= ok_names]      # links that still mention tensor components are not needed (dropping is sound)
         box = [sub(tob(x)) for x in box_moduli(self.c.inp, hmin_rel=hmin_rel) + [v_le(0.0, q.e0), v_le(q.e0, EQPS_MAX)] + q.sq_defs]
@@ -529,12 +605,20 @@ class Chain:
             def spec(i, o, calls):
                 qq = Q(i, o, calls, self.sq, hmin_rel)
                 return qq.assumes, mk_goal(qq)
-            self.c.prove(name + '[over_real_inputs%s]' % ('' if not stray else ';stray=' + ','.join(stray[:4])), spec, cap=cap, order=('core', 'nlsat'),
-                         extra_assumes=[f for _, f in self.facts])
+            fb = self.c.prove(name + '[over_real_inputs%s]' % ('' if not stray else ';stray=' + ','.join(stray[:4])), spec, cap=cap, order=('core', 'nlsat'),
+                              extra_assumes=[f for _, f in self.facts])
+            if rec is not None and fb and all(r is not None and r['status'] in ('discharged', 'violated') for r in fb) and rec in self.h.records:
+                self.h.records.remove(rec)      # the renamed query was only a proof aid; the verdict over the real inputs stands
+            if fb and all(r is not None and r['status'] == 'discharged' for r in fb):
+                self.facts.append((fb[0]['query'], _fact(goal)))
+            if fb and any(r is not None and r['status'] == 'violated' for r in fb):
+                self.violated = True
         return rec
 
 
-def chain_case(h, build, lab, energy=False, stress=False, assume_post=True, hmin_rel=H_MIN_REL):
+def chain_case(h, build, lab, energy=False, stress=False, assume_post=False, hmin_rel=H_MIN_REL):
+    """assume_post=False: the post-condition of the root-finder contract is not part of the definitions; it enters as an
+    explicit fact (Chain.contract_facts) where the chain uses it"""
     fn = (lambda dg, st, E, nu, Y0, H, dt: f_chain(dg, st, E, nu, Y0, H, dt, energy=energy, stress=stress))
     c = J2Case(h, fn, EX, build=build, sampler=sampler_full, label='chain_' + lab, assume_post=assume_post)
     return Chain(h, c, SpecSqrt(), hmin_rel)
@@ -545,7 +629,11 @@ def links_flow_direction(ch, cap=60):
     """(i) N*s = c*dev(E), dev(E):N = c*s with s = |dev E| (when |dev E|^2 > 1e-16), at the trial state"""
     def mk(q):
         N, D = q.ax['N0'], q.ax['D0']
-        return [Eq([v_mul(n, q.s) for n in flat(N)], [v_mul(C_FLOW, d) for d in flat(D)], when=q.nz0, name='N_s_eq_c_devE'),
+        N = onp.asarray(N, dtype=object).reshape(3, 3)
+        return [Eq(v_sum([N[0, 0], N[1, 1], N[2, 2]]), 0.0, name='N_traceless'),
+                Eq([v_sub(N[a, b], N[b, a]) for a in range(3) for b in range(a + 1, 3)], 0.0, name='N_symmetric'),
+                Eq([v_mul(n, q.s) for n in flat(N)], [v_mul(C_FLOW, d) for d in flat(D)], when=q.nz0, name='N_s_eq_c_devE'),
+                Eq(v_dot(N, N), CC_EXACT, when=q.nz0, name='N_N_eq_3_2_rounded'),
                 Eq(q.DN0, v_mul(C_FLOW, q.s), when=q.nz0, name='devE_N_eq_c_s')]
     return ch.link('i.flow_direction', mk, cap=cap)
 
@@ -562,7 +650,8 @@ def links_yield_predicate(ch, cap=60):
                 Eq(q.F1, v_add(q.Y0, v_mul(q.H, q.e1)), name='flow_stress_new_linear', scale=q.Y0),
                 Eq(A['rtol'], q.tolY, when=q.g, name='root_tolerance_is_yield_tolerance', scale=q.tolY),
                 Eq(q.e1, A['x'], when=q.g, name='new_eqps_is_root', scale=1e-3),
-                Eq(q.e1, q.e0, when=v_not(q.g), name='elastic_keeps_eqps', scale=1e-3)]
+                Eq(q.e1, q.e0, when=v_not(q.g), name='elastic_keeps_eqps', scale=1e-3),
+                Eq(q.DD1, q.DD0, when=v_not(q.g), name='elastic_keeps_strain_norm', scale=q.DD0)]
     return ch.link('yield_predicate', mk, cap=cap)
 
 
@@ -574,9 +663,9 @@ def links_bracket(ch, cap=60):
         w = v_sub(A['ub'], A['lb'])
         rh = v_add(v_sub(v_add(v_mul(v_mul(2.0, q.mu), v_mul(C_FLOW, v_mul(C_FLOW, w))), v_add(q.F0, v_mul(q.H, w))), T), 0.0)
         return [Eq(A['lb'], q.e0, when=q.g, name='lb_is_old_eqps', scale=1e-3),
-                Eq(A['rl'], v_sub(q.F0, T), when=q.g, name='r_lb_closed_form', scale=q.Y0),
-                Eq(v_mul(v_mul(3.0, q.mu), w), v_sub(T, q.F0), when=q.g, name='width_closed_form', scale=q.Y0),
-                Eq(A['rh'], rh, when=q.g, name='r_ub_closed_form', scale=q.Y0)]
+                Eq(A['rl'], v_sub(q.F0, T), when=v_and(q.g, q.nz0), name='r_lb_closed_form', scale=q.Y0),
+                Eq(v_mul(v_mul(3.0, q.mu), w), v_sub(T, q.F0), when=v_and(q.g, q.nz0), name='width_closed_form', scale=q.Y0),
+                Eq(A['rh'], rh, when=v_and(q.g, q.nz0), name='r_ub_closed_form', scale=q.Y0)]
     return ch.link('iii.bracket_ends', mk, cap=cap, generalise={'r_ub_closed_form': lambda q: [q.A['ub']]})
 
 
@@ -584,8 +673,8 @@ def links_return(ch, cap=120):
     """(ii) |dev(E')|^2 = (s - a c)^2 and (iii) r(x) = -2 mu c (s - a c) + flow(x) at the value returned by the root finder"""
     def mk(q):
         A = q.A
-        return [Eq(q.DD1, v_sq(q.rem), when=q.g, name='ii.norm_after_return', scale=q.DD0),
-                Eq(A['rx'], v_add(v_mul(v_mul(-2.0, q.mu), v_sub(q.DN0, q.cca)), q.F1), when=q.g, name='iii.residual_closed_form', scale=q.Y0)]
+        return [Eq(q.DD1, v_sq(q.rem), when=v_and(q.g, q.nz0), name='ii.norm_after_return', scale=q.DD0),
+                Eq(A['rx'], v_add(v_mul(v_mul(-2.0, q.mu), v_sub(q.DN0, q.cca)), q.F1), when=v_and(q.g, q.nz0), name='iii.residual_closed_form', scale=q.Y0)]
     return ch.link('return', mk, cap=cap)
 
 
@@ -661,19 +750,21 @@ def o2(h):
         c.prove('isochoric_' + lab, spec, cap=250, order=('core',))
 
 
-@obligation(P, 'O3.bracket_valid', cap=300)
+@obligation(P, 'O3.bracket_valid', cap=600)
 def o3(h):
     """the bracket handed to find_root is valid: lb = eqps_old < ub and r(lb) < 0 <= r(ub) (precondition of the C17 contract);
     chain: closed forms of r at the bracket ends (links on the real code), then scalar algebra"""
     _common(h)
     h.bounds('linear hardening; two parameter ranges: %g*E <= H <= E (the range every other obligation is claimed for) and the full designed range 0 <= H <= E' % H_MIN_REL,
-             'quick: plane-strain block; thorough: full 3x3')
+             'plane-strain block and full 3x3 in both tiers (the H >= 0 range on the plane-strain block)')
     h.assume_note('O3 does not use the post-condition of the root-finder contract (the stub value is unconstrained here)')
-    for lab, build in _rungs(h):
+    for lab, build in _rungs(h, quick_full=True):
         ch = chain_case(h, build, lab, assume_post=False, hmin_rel=0.0)
         links_flow_direction(ch)
         links_yield_predicate(ch)
         links_bracket(ch)
+        if ch.violated:
+            continue
         for hmin, tag in ((H_MIN_REL, 'H>=%g*E' % H_MIN_REL), (0.0, 'H>=0')):
             if hmin == 0.0 and lab != 'plane':
                 continue
@@ -681,3 +772,196 @@ def o3(h):
             ch.close('%s.r_lb_negative[%s]' % (lab, tag), lambda q: Lt(q.A['rl'], 0.0, when=q.g, scale=0.0), hmin_rel=hmin)
             ch.close('%s.r_ub_nonnegative[%s]' % (lab, tag), lambda q: Le(0.0, q.A['rh'], when=q.g, scale=0.0), hmin_rel=hmin)
             ch.facts = [f for f in ch.facts if '[H>=' not in f[0]]
+
+
+def links_second_check(ch, cap=60):
+    """the yield test of the second update (from the committed state) in terms of the by-products at the new state"""
+    def mk(q):
+        over = v_sub(v_mul(v_mul(2.0, q.mu), q.DN1), q.F1)
+        return [Holds(v_eq(q.gb, v_lt(q.tolY, over)) if isz(q.gb) else (bool(q.gb) == bool(q.tolY < over)), name='second_yield_test_is_2mu_devE1_N1_minus_flow1_gt_tol'),
+                Eq(q.DN1, v_mul(C_FLOW, q.s1), when=q.nz1, name='i.devE1_N1_eq_c_s1', scale=q.s1),
+                Le(v_sq(q.DN1), v_mul(1.5, q.DD1), when=v_not(q.nz1), name='degenerate_direction_small_overstress', scale=1e-16)]
+    return ch.link('second_check', mk, cap=cap, use_facts=False, rename=lambda q: flat(q.ax['E1']))
+
+
+def _goal_mises(when):
+    """Mises stress after the update (squared form: 6 mu^2 |dev E'|^2 with the code's rounded sqrt(3/2)) is below the new flow stress + tol"""
+    def mk(q):
+        m2 = v_mul(4.0, v_mul(v_sq(q.mu), v_mul(C_FLOW, v_mul(C_FLOW, q.DD1))))
+        return Le(m2, v_sq(v_add(q.F1, q.tolY)), when=when(q), name='', scale=v_sq(q.Y0))
+    return mk
+
+
+def run_chain(h, ch, lab, upto):
+    """the chain (i)-(iv) + second check; upto in {'O4', 'O6'}; stops as soon as a step is refuted on the real code"""
+    steps = [lambda: links_flow_direction(ch), lambda: links_yield_predicate(ch), lambda: links_return(ch),
+             lambda: (ch.contract_facts(), ch.close('%s.iv.mises_le_flow_plus_tol[yielding]' % lab, _goal_mises(lambda q: q.g))),
+             lambda: ch.close('%s.iv.mises_le_flow_plus_tol[elastic]' % lab, _goal_mises(lambda q: v_not(q.g)))]
+    if upto != 'O4':
+        steps += [lambda: links_second_check(ch),
+                  lambda: ch.close('%s.second_update_is_elastic[after_yielding]' % lab, lambda q: Holds(v_not(q.gb), when=q.g)),
+                  lambda: ch.close('%s.second_update_is_elastic[after_elastic]' % lab, lambda q: Holds(v_not(q.gb), when=v_not(q.g)))]
+    for st in steps:
+        st()
+        if ch.violated:
+            return False
+    return True
+
+
+@obligation(P, 'O4.yield_consistent', cap=600)
+def o4(h):
+    """after the update the Mises stress is on or inside the yield surface at the new eqps, to the solver tolerance
+    (cut-lemma chain (i)-(iv) of DESIGN section 5 C09, every link its own query)"""
+    _common(h)
+    h.bounds('linear hardening %g*E <= H <= E; plane-strain block and full 3x3 (9 dispGrad + 5 plastic-strain components) in both tiers' % H_MIN_REL,
+             'goal: 4 mu^2 c^2 |dev(strain - plastic strain\')|^2 <= (flow(eqps\') + 1e-10*Y0)^2, c = the code\'s binary64 sqrt(3/2) (squared form: no ideal irrational)')
+    for lab, build in _rungs(h, quick_full=True):
+        run_chain(h, chain_case(h, build, lab), lab, 'O4')
+
+
+@obligation(P, 'O6.idempotent', cap=600)
+def o6(h):
+    """a second update at the same displacement gradient from the committed state takes the elastic branch and returns the
+    committed state unchanged (shared tolerance of yield test and root finder)"""
+    _common(h)
+    h.bounds('linear hardening %g*E <= H <= E; plane-strain block and full 3x3 in both tiers' % H_MIN_REL)
+    for lab, build in _rungs(h, quick_full=True):
+        ch = chain_case(h, build, lab)
+        if not run_chain(h, ch, lab, 'O6'):
+            continue
+        ch.link('%s.second_update_returns_same_state' % lab,
+                lambda q: [Eq(list(q.st2), list(q.st1), when=v_not(q.gb), name='state_unchanged', scale=1e-3)])
+
+
+@obligation(P, 'O7.commit_invariant', cap=600)
+def o7(h):
+    """energy density (and stress) at a displacement gradient are the same evaluated from the old state (update inside) and
+    from the committed state"""
+    _common(h)
+    J2 = _mods()[0]
+    h.encoded(J2._energy_density, J2.elastic_free_energy, J2.elastic_volumetric_free_energy)
+    h.bounds('linear hardening %g*E <= H <= E; plane-strain block and full 3x3 in both tiers' % H_MIN_REL)
+    for lab, build in _rungs(h, quick_full=True):
+        ch = chain_case(h, build, lab, energy=True)
+        if not run_chain(h, ch, lab, 'O6'):
+            continue
+        ch.link('%s.energy' % lab, lambda q: [Eq(s0(q.ax['W0']), s0(q.ax['W1']), when=v_not(q.gb), name='same_before_and_after_commit', scale=q.Y0)])
+
+
+def f_potential(Ee, x, y, xo, E, nu, Y0, H, dt):
+    J2, Hd, SRF, TM = _mods()
+    props = J2.make_properties(E, nu, Y0)
+    hm = Hd.create_hardening_model({'hardening model': 'linear', 'yield strength': Y0, 'hardening modulus': H})
+    pot = lambda e: J2.incremental_potential(Ee, e, xo, dt, props, hm)
+    res = lambda e: J2.r(Ee, e, xo, dt, props, hm)
+    return pot(x), pot(y), res(x), res(y)
+
+
+@obligation(P, 'O5.minimiser', cap=300)
+def o5(h):
+    """the residual handed to the root finder is the derivative of the incremental potential along the flow direction and is
+    strictly increasing, the potential lies above its tangents: a point with |r| <= tol minimises the incremental potential
+    over all plastic increments up to tol*|distance|"""
+    from ..jxh import Case
+    J2, Hd, SRF, TM = _mods()
+    h.encoded(J2.incremental_potential, 'optimism.material.J2Plastic:r = jax.jacfwd(incremental_potential, 1)', J2.compute_flow_direction,
+              J2.elastic_deviatoric_free_energy, J2.make_properties, Hd.create_hardening_model, Hd.linear, TM.dev, TM.norm_of_deviator_squared)
+    h.bounds('elastic trial strain: all 9 components free in [-2, 2] (symmetric or not, both flow-direction branches); eqps arguments x, y and eqps_old: all reals',
+             'moduli: Y0 > 0, %g <= E/Y0 <= %g, 0 <= nu <= %g, 0 <= H <= E, dt > 0; linear hardening' % (EY_MIN, EY_MAX, NU_MAX))
+    h.outside('that jax.jacfwd returns the derivative (JAX is trusted); the obligation checks the traced derivative against the traced potential through the tangent inequality')
+    h.assume_note('symbolic denominators (1+nu, 1-2nu, |dev strain| behind its > 1e-16 guard) are assumed non-zero')
+    ex = dict(Ee=EX['dg'], x=0.01, y=0.02, xo=0.005, E=200.0, nu=0.3, Y0=1.0, H=2.0, dt=1.0)
+    smp = lambda rng: [rng.normal(size=(3, 3)) * 0.01, abs(rng.normal()) * 0.01, abs(rng.normal()) * 0.01, abs(rng.normal()) * 0.01,
+                       10 ** rng.uniform(1.5, 3), rng.uniform(0, 0.45), 10 ** rng.uniform(-1, 0.5), 10 ** rng.uniform(-2, 1), 1.0]
+    c = Case(h, f_potential, ex, sampler=smp, label='potential_and_residual')
+
+    def spec(i, o):
+        x, y = s0(i['x']), s0(i['y'])
+        px, py, rx, ry = [s0(v) for v in o]
+        Y0 = s0(i['Y0'])
+        box = box_moduli(i, hmin_rel=0.0) + [v_and(v_le(-2.0, e), v_le(e, 2.0)) for e in flat(i['Ee'])]
+        d = v_sub(y, x)
+        tol = v_mul(TOL, Y0)
+        return box, [Lt(rx, ry, when=v_lt(x, y), name='residual_strictly_increasing', scale=0.0),
+                     Le(v_add(px, v_mul(rx, d)), py, name='potential_above_tangent', scale=Y0)]
+    recs = c.prove('convex', spec, cap=150, order=('core', 'nlsat'))
+    # chain close: |r(x)| <= tol and the tangent inequality give approximate minimality (potential/residual terms renamed, definitions dropped)
+    _, atoms = spec(c.inp, c.out)
+    px, py, rx, ry = [s0(v) for v in c.out]
+    x, y, Y0 = s0(c.inp['x']), s0(c.inp['y']), s0(c.inp['Y0'])
+    ren = [(px, z3.Real('abs_pot_x')), (py, z3.Real('abs_pot_y')), (rx, z3.Real('abs_r_x'))]
+    ren.sort(key=lambda p: -_size(p[0]))
+
+    def sub(f):
+        for t, v in ren:
+            f = z3.substitute(f, (t, v))
+        return f
+    facts = [sub(_fact(a)) for r_, a in zip(recs, atoms) if r_ is not None and r_['status'] == 'discharged' and a.name == 'potential_above_tangent']
+    tol = v_mul(TOL, Y0)
+    goal = Le(px, v_add(py, v_mul(tol, v_abs(v_sub(y, x)))), when=v_le(v_abs(rx), tol), name='approximate_root_is_minimiser', scale=Y0)
+    g2 = _sub_atom(goal, sub)
+    ok = _consts(facts + [g2.neg(0)]) <= {'abs_pot_x', 'abs_pot_y', 'abs_r_x', 'x', 'y', 'Y0'}
+    rec = h.prove('convex.approximate_root_is_minimiser', facts + [Y0 > 0], g2, inputs={str(v): v for _, v in ren}, concrete=None, cap=30, order=('nlsat', 'core'),
+                  note='chain close from potential_above_tangent, definitions dropped') if ok and facts else None
+    if rec is None or rec['status'] != 'discharged':
+        def spec3(i, o):
+            b, _a = spec(i, o)
+            xx, yy = s0(i['x']), s0(i['y'])
+            t = v_mul(TOL, s0(i['Y0']))
+            return b, Le(s0(o[0]), v_add(s0(o[1]), v_mul(t, v_abs(v_sub(yy, xx)))), when=v_le(v_abs(s0(o[2])), t), name='', scale=s0(i['Y0']))
+        fb = c.prove('convex.approximate_root_is_minimiser[over_real_inputs]', spec3, cap=120, order=('core', 'nlsat'))
+        if rec is not None and all(r_ is not None and r_['status'] in ('discharged', 'violated') for r_ in fb) and rec in h.records:
+            h.records.remove(rec)
+
+
+def build_principal(free):
+    """principal frame: diagonal dispGrad, diagonal plastic strain"""
+    d = dict(free)
+    dg = free['dg'].copy()
+    for a in range(3):
+        for b in range(3):
+            if a != b:
+                dg[a, b] = 0.0
+    s = free['st']
+    d['dg'] = dg
+    d['st'] = sym_state([s[1], s[5], None, 0.0, 0.0, 0.0], s[0])
+    return d
+
+
+@obligation(P, 'O7b.stress_commit_invariant_principal', tiers=('thorough',), cap=400)
+def o7b(h):
+    """stress (derivative of the energy density with respect to the displacement gradient) before and after commit differ by
+    exactly r(x) * d(eqps')/d(dispGrad), whose entries are below 1 in modulus: equal to the solver tolerance. Principal frame only."""
+    _common(h)
+    J2 = _mods()[0]
+    h.encoded(J2._energy_density, J2.elastic_free_energy, J2.elastic_volumetric_free_energy, 'jax.grad of MaterialModel.compute_energy_density (through find_root\'s custom_root tangent rule)')
+    h.bounds('linear hardening %g*E <= H <= E; principal frame only (diagonal dispGrad: 3 components, diagonal plastic strain: 2 components); '
+             'the derivative is the full 3x3 gradient' % H_MIN_REL)
+
+    def fn(dg, st, E, nu, Y0, H, dt):
+        st1, st2, aux = f_chain(dg, st, E, nu, Y0, H, dt, stress=True)
+        m = make_model(E, nu, Y0, (H,))
+        site('a')
+        aux['G'] = jax.grad(lambda d: m.compute_state_new(d, st, dt)[0])(dg)
+        return st1, st2, aux
+    c = J2Case(h, fn, EX, build=build_principal, sampler=sampler_full, label='chain_stress_principal', assume_post=False)
+    ch = Chain(h, c, SpecSqrt())
+    if not run_chain(h, ch, 'principal', 'O6'):
+        return
+    cc2 = lambda t: v_mul(C_FLOW, v_mul(C_FLOW, t))
+    ch.link('stress.elastic', lambda q: [Eq(flat(q.ax['S0']), flat(q.ax['S1']), when=v_and(v_not(q.g), v_not(q.gb)), name='identical', scale=q.Y0)], use_facts=False)
+    ch.link('stress.yielding', lambda q: [
+        Eq([v_sub(a, b) for a, b in zip(flat(q.ax['S0']), flat(q.ax['S1']))], [v_mul(q.A['rx'], gg) for gg in flat(q.ax['G'])],
+           when=v_and(q.g, q.nz0, v_not(q.gb)), name='difference_is_residual_times_eqps_sensitivity', scale=q.Y0)], cap=120, use_facts=False)
+    ch.link('stress.sensitivity', lambda q: [
+        Eq([v_mul(gg, v_add(cc2(v_mul(2.0, q.mu)), q.H)) for gg in flat(q.ax['G'])], [v_mul(v_mul(2.0, q.mu), n) for n in flat(q.ax['N0'])],
+           when=v_and(q.g, q.nz0), name='closed_form', scale=q.Y0)], cap=300, order=('nlsat', 'core'), use_facts=False)
+    ch.link('stress.direction', lambda q: [Le([v_sq(n) for n in flat(q.ax['N0'])], C_FLOW * C_FLOW * (1 + 1e-12), when=q.nz0, name='entries_bounded', scale=1.0)],
+            cap=200, use_facts=False)
+    for k in range(9):
+        def goal(q, k=k):
+            d = v_sub(flat(q.ax['S0'])[k], flat(q.ax['S1'])[k])
+            return Le(v_abs(d), q.tolY, when=q.g, name='', scale=q.Y0)
+        ch.close('principal.stress_within_tolerance[%d%d]' % (k // 3, k % 3), goal, cap=200, order=('core', 'nlsat'),
+                 table=lambda q: _table_all(q) + [('S0_%d' % j, flat(q.ax['S0'])[j]) for j in range(9)] + [('S1_%d' % j, flat(q.ax['S1'])[j]) for j in range(9)]
+                 + [('G_%d' % j, flat(q.ax['G'])[j]) for j in range(9)] + [('N_%d' % j, flat(q.ax['N0'])[j]) for j in range(9)])
